@@ -329,7 +329,7 @@ def main():
     seed = int(os.environ.get("VERIF_SEED", "20260921"))
     t_start = time.time()
     mod = importlib.import_module(f"props.{pid}")
-    workdir = os.path.join(VERIF, ".work", pid)
+    workdir = os.path.join(VERIF, ".work", f"{pid}-{os.getpid()}")  # per process: concurrent runs of one check must not share scratch
     shutil.rmtree(workdir, ignore_errors=True)
     os.makedirs(workdir, exist_ok=True)
     os.makedirs(os.path.join(VERIF, "evidence"), exist_ok=True)
